@@ -118,6 +118,7 @@ Qed.
 Theorem C01_simple_assignment_is_complete :
   forall mexists modulename c t pt v p,
     CFC v -> FuncAn.is_call v = false -> FuncAn.is_seq_tl v = false -> mem t ATTR_BUILTINS = false ->
+    isidentifier t = true ->
     NoCustom mexists modulename (ctx_add c (mkSym t KName) false) v ->
     forall s, v_ctx s = c ->
       let r := visit mexists modulename (SAssign [EName t Store pt] v p) s in
